@@ -115,7 +115,7 @@ def rule_indent(prog, rep):
       leading blank lines are skipped with the WhiteSpace-only test; lines are joined with U+000A,
       nothing before the first; trailing blank lines are cut by truncating at the end of the last
       non-blank line."""
-    rep.floor("C06.INDENT", 4)
+    rep.floor("C06.INDENT", 1)
     from ..flow import _strip, facts_at, loop_headers, loop_body
     from ..tables import enum_paths, return_value_on_path
     ubs = prog.fn(r"^apollo_parser::cst::node_ext::unescape_block_string$")
